@@ -44,7 +44,13 @@ def enumerate_cases(tier, seed):
     progs = distspace.programs(tier, seed)
     structured = [(f, p) for f, p in progs if not f.startswith("R") and not f.startswith("stored")]
     skel = [{"fam": f, "prog": p, "pairs": False} for f, p in progs if f.startswith("R")]
-    cases = runner.slice_by_seed(skel, seed, 8 if tier == "quick" else 1)
+    if tier == "quick":
+        cases = runner.slice_by_seed(skel, seed, 8)
+    else:
+        # thorough: every fault at every site of every program within the quick bounds of the skeleton space, and of a
+        # seed-chosen 1/6 of the larger skeletons (R2M4, R3M3)
+        small = [c for c in skel if c["fam"] not in ("R2M4", "R3M3")]
+        cases = small + runner.slice_by_seed([c for c in skel if c["fam"] in ("R2M4", "R3M3")], seed, 6)
     # "a correct computation is never rejected": every base program of the space, unfaulted
     chosen = {runner.stable_hash(c) for c in cases}
     cases += [dict(c, nofaults=True) for c in skel if runner.stable_hash(c) not in chosen]
